@@ -1,0 +1,15 @@
+//go:build verif
+
+// Contracts for the govc verifier (see /verif/DESIGN.md). Comment-only file.
+package state
+
+//@ # ASSUMED effect summaries of the swap mutators as seen through State.Swapper(): they change only the abstract
+//@ # swap state and report to the conservation ledger; results are non-nil amounts
+//@ func iface _.PairSellWithOrders
+//@   ensures result0 != nil && result1 != nil && result0.val >= 0 && result1.val >= 0
+//@   ensures forall i int :: 0 <= i && i < len(result4) ==> result4[i] != nil && result4[i].ValueBigInt != nil && result4[i].ValueBigInt.val >= 0
+//@   modifies swapAbs, ledgerDelta
+//@ func iface _.PairBuyWithOrders
+//@   ensures result0 != nil && result1 != nil && result0.val >= 0 && result1.val >= 0
+//@   ensures forall i int :: 0 <= i && i < len(result4) ==> result4[i] != nil && result4[i].ValueBigInt != nil && result4[i].ValueBigInt.val >= 0
+//@   modifies swapAbs, ledgerDelta
